@@ -489,13 +489,25 @@ func (n *node) ReplaceChild(old Node, new ...Node) {
 }
 
 func (n *node) buildSymbols() (error, Pos) {
+	// The groupings and typedefs written in the body of a statement belong
+	// to the scope of that body (the one its substatements were created
+	// in), not to the scope the statement itself stands in: there they
+	// would be visible to - and clash with - the definitions of sibling
+	// statements. The definitions of a module or submodule stay where
+	// the lookups through the (sub)module node expect them.
+	genv, tenv := n.genv, n.tenv
+	if n.Type() != NodeModule && n.Type() != NodeSubmodule && len(n.children) > 0 {
+		if c, ok := n.children[0].(*node); ok {
+			genv, tenv = c.genv, c.tenv
+		}
+	}
 	for _, g := range n.ChildrenByType(NodeGrouping) {
-		if err := n.genv.Put(g.Name(), g); err != nil {
+		if err := genv.Put(g.Name(), g); err != nil {
 			return err, g.position()
 		}
 	}
 	for _, t := range n.ChildrenByType(NodeTypedef) {
-		if err := n.tenv.Put(t.Name(), t); err != nil {
+		if err := tenv.Put(t.Name(), t); err != nil {
 			return err, t.position()
 		}
 	}
